@@ -346,6 +346,42 @@ def const_column_witness(a=10.0):
     return g1.predict(Q), g2.predict(Q2), float(g1.statistics_['edof']), float(g2.statistics_['edof']), dict(X=X.tolist(), y=y.tolist(), a=a, b=0.0, query=Q.tolist())
 
 
+def pvalue_cond(gam, t):
+    """condition number of the part of the term's covariance block that scipy.linalg.pinv inverts (largest / smallest KEPT singular value):
+    the Wald score coef' pinv(cov) coef computed from the float covariance has relative error of order eps * this, whatever the algorithm"""
+    import scipy.linalg
+    cov = np.asarray(gam.statistics_['cov'], dtype=float)
+    idxs = gam.terms.get_coef_indices(t)
+    blk = cov[idxs][:, idxs]
+    sv = np.linalg.svd(blk, compute_uv=False)
+    _, rank = scipy.linalg.pinv(blk, return_rank=True)
+    if rank == 0 or not np.isfinite(sv).all() or sv[rank - 1] <= 0:
+        return float('inf')
+    return float(sv[0] / sv[rank - 1])
+
+
+def rss_slack(gam, X, y, w, t_train):
+    """Rounding analysis of the residual sum of squares  S = sum w (y - mu)^2  behind scale (= S / (n - edof)), GCV (= n S / (n - 1.4 edof)^2) and
+    cov (= scale * Binv Binv'): each residual is formed as y_i - fl(B_i . coef), whose absolute error is at least the dot-product bound
+    (m + 2) eps (|B_i| . |coef| + |y_i|) plus the solver's forward error t_i at that row (lp_bounds), whatever the algorithm.  For a nearly
+    interpolating fit (n <= m, residuals of a few thousand ulps of y) that is a large RELATIVE error of S; returns the first-order bound
+    (2 sum w |r| d + sum w d^2) / S and the relative error bounds of (n - edof) and (n - 1.4 edof)^2 from an edof accurate to 64 eps max(1, edof)."""
+    B = gam._modelmat(X).toarray()
+    n, m = B.shape
+    coef = np.asarray(gam.coef_, dtype=float)
+    wts = np.ones(n) if w is None else gen_models.f32(w)
+    r = y - B @ coef
+    d = (m + 2) * EPS * (np.abs(B) @ np.abs(coef) + np.abs(y)) + np.asarray(t_train, dtype=float)
+    S = float(np.sum(wts * r * r))
+    num = float(np.sum(wts * (2 * np.abs(r) * d + d * d)))
+    s_rel = num / S if S > 0 else float('inf')
+    edof = float(gam.statistics_['edof'])
+    e_abs = 64 * EPS * max(1.0, abs(edof))
+    den1 = abs(n - edof)
+    den2 = abs(n - 1.4 * edof)
+    return s_rel, (e_abs / den1 if den1 > 0 else float('inf')), (2 * 1.4 * e_abs / den2 if den2 > 0 else float('inf'))
+
+
 def linear_checks(res, scn, X, y, w, c, y2, Xq):
     try:
         g1, c1, _ = fit(scn, X, y, w)
@@ -363,13 +399,20 @@ def linear_checks(res, scn, X, y, w, c, y2, Xq):
     t1, tc, t2, t12 = lp_bounds(g1, X, y, w, Xq), lp_bounds(gc, X, c * y, w, Xq), lp_bounds(g2, X, y2, w, Xq), lp_bounds(g12, X, y + y2, w, Xq)
     Sc = float(np.max(np.abs(c * mu1))) + 1e-300
     Sa = float(np.abs(mu1).max() + np.abs(mu2).max()) + 1e-300
+    ntr = len(y)                 # the first rows of Xq are the training rows
+    r1, e1a, e1b = rss_slack(g1, X, y, w, t1[:ntr])
+    rc, eca, ecb = rss_slack(gc, X, c * y, w, tc[:ntr])
+    tol_scale = TOL + r1 + rc + e1a + eca        # scale and cov: S / (n - edof)
+    tol_gcv = TOL + r1 + rc + e1b + ecb          # GCV: n S / (n - 1.4 edof)^2
+    res.count('rounding bound of the residual sum of squares, relative: %s' % ('<=1e-9' if r1 + rc <= 1e-9 else ('<=1e-6' if r1 + rc <= 1e-6 else
+              '>1e-6 (nearly interpolating fit: dominates the tolerance of scale / GCV / cov)')))
     checks = [
         ('scaling: predictions, excess of |mu(c y) - c mu(y)| over (tol max|c mu| + conditioning bound), in units of tol max|c mu|',
          float(np.max(np.maximum(np.abs(muc - c * mu1) - tc - abs(c) * t1, 0.0)) / (TOL * Sc)), 1.0),
         ('scaling: edof', rel_edof(float(s1['edof']), float(sc['edof'])), TOL),
-        ('scaling: scale / (c^2 scale)', rel(sc['scale'], c * c * s1['scale']), TOL),
-        ('scaling: GCV / (c^2 GCV)', rel(sc['GCV'], c * c * s1['GCV']), TOL),
-        ('scaling: cov / (c^2 cov)', rel(sc['cov'], c * c * np.asarray(s1['cov'])), TOL),
+        ('scaling: scale / (c^2 scale) (tol + rounding bound of the residual sum of squares and of n - edof)', rel(sc['scale'], c * c * s1['scale']), tol_scale),
+        ('scaling: GCV / (c^2 GCV) (tol + rounding bound)', rel(sc['GCV'], c * c * s1['GCV']), tol_gcv),
+        ('scaling: cov / (c^2 cov) (tol + rounding bound)', rel(sc['cov'], c * c * np.asarray(s1['cov'])), tol_scale),
         ('additivity: predictions, excess of |mu(y1+y2) - mu(y1) - mu(y2)| over (tol (max|mu1| + max|mu2|) + conditioning bound), in units of tol (..)',
          float(np.max(np.maximum(np.abs(mu12 - mu1 - mu2) - t1 - t2 - t12, 0.0)) / (TOL * Sa)), 1.0),
         ('additivity: edof', max(rel_edof(float(s1['edof']), float(g2.statistics_['edof'])), rel_edof(float(s1['edof']), float(g12.statistics_['edof']))), TOL),
@@ -378,14 +421,27 @@ def linear_checks(res, scn, X, y, w, c, y2, Xq):
     ok = compare(res, 'LinearGAM is not linear in the response', inp, checks)
     p1, pc = np.asarray(s1['p_values'], dtype=float), np.asarray(sc['p_values'], dtype=float)
     dp = np.abs(p1 - pc)
-    bad_terms = [int(t) for t in np.nonzero(~(dp <= TOL))[0]]
-    if bad_terms:
-        noise = pvalue_noise_terms(g1, bad_terms) or pvalue_noise_terms(gc, bad_terms)
-        res.violations.append(dict(what='LinearGAM p-values change under y -> c y', finding=PVAL_FINDING if noise else None, input=inp,
-                                   observed=dict(p_values=p1.tolist(), p_values_scaled=pc.tolist(), terms=bad_terms), expected='equal within %g' % TOL))
+    # the Wald score is proportional to 1 / scale: |dp| <= sup_x x f(x) * (relative error of the score), and sup_x x f_k(x) <= 1 + sqrt(k) for the
+    # chi^2_k / F_{k, .} densities with k <= number of coefficients of the term
+    kfac = np.array([1.0 + math.sqrt(len(g1.terms.get_coef_indices(t))) for t in range(len(p1))])
+    ptol = TOL + kfac * (tol_scale - TOL)
+    over = [int(t) for t in np.nonzero(~(dp <= ptol))[0]]
+    if over:
+        # (1) the listed defect: pinv keeps a singular value at noise level (< 1e-9 of the largest)
+        noise = pvalue_noise_terms(g1, over) or pvalue_noise_terms(gc, over)
         if noise:
+            res.violations.append(dict(what='LinearGAM p-values change under y -> c y', finding=PVAL_FINDING, input=inp,
+                                       observed=dict(p_values=p1.tolist(), p_values_scaled=pc.tolist(), terms=over), expected='equal within %g' % TOL))
             return 'ok' if ok else 'bad'
-        ok = False
+        # (2) rounding: relative error 64 eps cond(kept part of the covariance block) of the Wald score
+        ptol2 = np.array([ptol[t] + kfac[t] * 64 * EPS * max(pvalue_cond(g1, t), pvalue_cond(gc, t)) for t in range(len(p1))])
+        bad_terms = [t for t in over if not (dp[t] <= ptol2[t])]
+        res.count('p-values: moved by more than %g but within 64 eps cond(covariance block) (ill-conditioned Wald score, accepted as rounding)' % TOL)
+        if bad_terms:
+            res.violations.append(dict(what='LinearGAM p-values change under y -> c y', finding=None, input=inp,
+                                       observed=dict(p_values=p1.tolist(), p_values_scaled=pc.tolist(), terms=bad_terms,
+                                                     tolerance=[float(ptol2[t]) for t in bad_terms]), expected='equal within tolerance'))
+            ok = False
     return 'ok' if ok else 'bad'
 
 
@@ -525,7 +581,7 @@ def run(res):
                                        finding=None, input=cross_meta[i], observed='check_case = false', expected='true'))
         for i, mt in enumerate(cross_meta):
             res.case(repr(('cross', i, mt['transform'], repr(mt['specs']))))
-    res.extra['tolerances'] = {'predictions / edof / scale / GCV / cov': '%g relative (to the largest entry)' % TOL, 'p-values': '%g absolute' % TOL,
+    res.extra['tolerances'] = {'predictions / edof / scale / GCV / cov': '%g relative (to the largest entry); scale, GCV, cov: plus the first-order rounding bound of the residual sum of squares (dot-product bound (m+2) eps (|B_i||coef| + |y_i|) and solver forward error per residual) and of n - edof -- matters only for nearly interpolating fits (counted in input_distribution)' % TOL, 'p-values': '%g absolute, plus (1 + sqrt(k)) x [rounding bound of the scale + 64 eps cond(kept part of the term covariance block)] (k = coefficients of the term; sup x f(x) <= 1 + sqrt(k) for chi2_k / F_k densities)' % TOL,
                                'convergence of the compared fits': 'tol=%g, max_iter=%d; unconverged pairs are counted, not compared' % (FIT_TOL, MAX_ITER),
                                'exact cross check': 'backward error bound of C01 (64 eps cond^2 clipped to [2^-27, 2^-16]); replication: at least 2^-20, pyGAM evaluates W = sqrt(w) in float32'}
     res.trusted.append('uniqueness of the fit is proved from positive definiteness of the total penalty (ridge sqrt(eps) I): C12_normal_equations_unique')
